@@ -18,6 +18,9 @@ fn main() {
         "C01" => c01::run(&tier),
         "C02" => c02::run(&tier),
         "C03" => c03::run(&tier),
+        "C04" => c04::run(&tier),
+        "C05" => c05::run(&tier),
+        "C06" => c06::run(&tier),
         _ => {
             eprintln!("unknown property {}", id);
             2
